@@ -31,6 +31,19 @@ func (e *Exec) rounded(st *State, exact *Term) *Term {
 }
 
 func (e *Exec) realBinop(st *State, op token.Token, a, b *Term) *Term {
+	if e.fpUF {
+		// floating-point operators as uninterpreted functions (only functional consistency is used)
+		switch op {
+		case token.ADD:
+			return UF("f64_add", RealSort, a, b)
+		case token.SUB:
+			return UF("f64_sub", RealSort, a, b)
+		case token.MUL:
+			return UF("f64_mul", RealSort, a, b)
+		case token.QUO:
+			return UF("f64_div", RealSort, a, b)
+		}
+	}
 	switch op {
 	case token.ADD:
 		return e.rounded(st, App("+", RealSort, a, b))
@@ -91,7 +104,11 @@ func (e *Exec) realToInt(st *State, t *Term, w int, signed bool) *Term {
 	case t.Op == "realconst" && (t.S == "0.0" || t.S == "1.0"):
 		tr = IntConst(map[string]int64{"0.0": 0, "1.0": 1}[t.S])
 	default:
-		tr = e.roundInt(st, "RTZ", t)
+		if e.fpUF {
+			tr = UF("f64_toint", IntSort, t)
+		} else {
+			tr = e.roundInt(st, "RTZ", t)
+		}
 	}
 	if mathInts {
 		return tr
